@@ -3,7 +3,7 @@
 From Coq Require Import String List NArith ZArith Bool.
 From J5V.lib Require Import Text Outcome.
 From J5V.model Require Import BclLexer BclParser BclFmt.
-From J5V.proofs Require Import BclPosProofs BclLexerProofs BclParserProofs BclTextProofs BclFmtProofs BclFmtFullProofs.
+From J5V.proofs Require Import BclPosProofs BclLexerProofs BclParserProofs BclTextProofs BclFmtProofs BclFmtFullProofs BclLspProofs.
 Import ListNotations.
 Local Open Scope Z_scope.
 
@@ -67,6 +67,37 @@ Print Assumptions C19_trailing_lines_blank.
 Theorem C19_full : C19_full_statement.
 Proof. exact fmt_diffs_full. Qed.
 Print Assumptions C19_full.
+
+(* ---- the same at the level of the TextEdits an editor receives (genlsp/format.go) --------------- *)
+(* lsp_format maps every edit to a TextEdit from (FromLine, 0) to (ToLine, 0) with Go's int -> uint32
+   conversion; lsp_apply is an editor applying such edits by character offset to the original text
+   (a position beyond the last line is the end of the document).  For documents with fewer than 2^32
+   lines: the TextEdits are computed, have character 0, are ascending and non-overlapping with
+   start <= end <= number of lines (no wrap-around), and applying them gives the formatter's output
+   up to trailing blank lines *)
+Definition C19_lsp_statement : Prop :=
+  forall input out, fmt_bytes input = Ok out -> nlines input < 4294967296 ->
+    exists tes, lsp_format input = Ok tes /\ tes_wf (nlines input) 0 tes /\
+      strip_trailing_blank (split_on 10 (lsp_apply (split_on 10 input) 0 tes)) = strip_trailing_blank (split_on 10 out).
+
+Theorem C19_lsp : C19_lsp_statement.
+Proof. exact lsp_format_statement. Qed.
+Print Assumptions C19_lsp.
+
+(* Format never panics either *)
+Theorem C19_lsp_no_failure : forall input,
+  match lsp_format input with Ok _ => True | Err _ => True | _ => False end.
+Proof. exact lsp_format_total. Qed.
+Print Assumptions C19_lsp_no_failure.
+
+(* the character-offset application and the whole-line replacement of C19_full agree: every edit text
+   FmtDiffs returns is empty or ends with a newline, and no edit starts beyond the last line *)
+Theorem C19_offset_apply_is_line_apply : forall input es, fmt_diffs input = Ok es ->
+  edits_wf (nlines input) 0 es ->
+  strip_trailing_blank (split_on 10 (lsp_apply (split_on 10 input) 0 (map plain_text_edit es))) =
+  strip_trailing_blank (apply_edits (split_on 10 input) 0 es).
+Proof. intros input es Ee Hw. apply (lsp_apply_lines input es Hw (fmt_diffs_shape input es Ee)). Qed.
+Print Assumptions C19_offset_apply_is_line_apply.
 
 (* non-vacuity: leading blank lines, a brace-less header with a trailing comment (finding 10),
    a white-space-only gap line, "} // c" (two fragments on one line) *)
